@@ -278,13 +278,13 @@ def cases(draw, lms=None):
 
 
 GROUPS = [   # (part name, launch methods, quick cases, thorough cases per shard)
-    ('single_rank_launchers', ['FORK', 'SSH', 'RSH'],                                   120,  600),
-    ('mpirun',  ['MPIRUN', 'MPIRUN_MPT', 'MPIRUN_MPT', 'MPIRUN_RSH', 'MPIRUN_CCMRUN', 'MPIRUN_DPLACE'], 330, 2400),
-    ('mpiexec', ['MPIEXEC', 'MPIEXEC', 'MPIEXEC_MPT'],                                   360, 2600),
-    ('srun',    ['SRUN'],                                                               170, 1200),
-    ('batch_placed', ['APRUN', 'CCMRUN', 'IBRUN', 'IBRUN'],                             170, 1000),
-    ('jsrun',   ['JSRUN', 'JSRUN_ERF'],                                                 220, 1400),
-    ('prte',    ['PRTE'],                                                               130,  800),
+    ('single_rank_launchers', ['FORK', 'SSH', 'RSH'],                                   120,  500),
+    ('mpirun',  ['MPIRUN', 'MPIRUN_MPT', 'MPIRUN_MPT', 'MPIRUN_RSH', 'MPIRUN_CCMRUN', 'MPIRUN_DPLACE'], 330, 1800),
+    ('mpiexec', ['MPIEXEC', 'MPIEXEC', 'MPIEXEC_MPT'],                                   360, 2000),
+    ('srun',    ['SRUN'],                                                               170,  900),
+    ('batch_placed', ['APRUN', 'CCMRUN', 'IBRUN', 'IBRUN'],                             170,  800),
+    ('jsrun',   ['JSRUN', 'JSRUN_ERF'],                                                 220, 1100),
+    ('prte',    ['PRTE'],                                                               130,  600),
 ]
 
 
@@ -836,6 +836,41 @@ def run_case(case):
                'slurm': flags.get('slurm_version'), 'res': plat.get('resource'),
                'cfg': case.get('lm_cfg')}
     return res
+
+
+def normalise(case):
+    """candidates of the minimiser: keep only cases of the generated domain, so
+    that a minimised replay reads like a real platform / placement"""
+    try:
+        plat = case['plat']
+        n, cpn, gpn = plat['nodes'], plat['cpn'], plat['gpn']
+        if not (1 <= n <= 50 and 1 <= cpn <= 128 and 0 <= gpn <= 16 and plat['smt'] >= 1):
+            return None
+        if case['lm'] not in LM_FAMILY or not case.get('order') or case['order'][-1] != case['lm'] \
+                and case['order'][0] != case['lm']:
+            return None
+        if not case['tasks']:
+            return None
+        for t in case['tasks']:
+            if LM_FAMILY[case['lm']] == 'JSRUN':
+                js = t['js']
+                if js['ranks'] < 1 or js['cpr'] < 1 or len(js['gpr']) != 2 or js['gpr'][1] < 1:
+                    return None
+                continue
+            if not t['ranks']:
+                return None
+            cpr, gpr = len(t['ranks'][0][1]), len(t['ranks'][0][2])
+            for r in t['ranks']:
+                if len(r) != 3 or not (0 <= r[0] < n) or not r[1] or len(r[1]) != cpr \
+                        or len(r[2]) != gpr or r[1] != sorted(set(r[1])) or r[2] != sorted(set(r[2])) \
+                        or not all(0 <= c < cpn for c in r[1]) or not all(0 <= g < gpn for g in r[2]):
+                    return None
+        for b in case.get('busy') or []:
+            if len(b) != 3:
+                return None
+    except (KeyError, TypeError, IndexError, AttributeError):
+        return None
+    return case
 
 
 def evidence_extra(col):
